@@ -2,7 +2,8 @@
 // The renderers zero_padded / zero_padded_i / alloc::fmt::format are replaced by recording stubs, so what is
 // decided is WHICH value is rendered at WHICH width in WHICH order - not the rendered characters.
 // Injected as `#[cfg(kani)] mod verif_harness_fmt;` at the crate root of a scratch copy of /repo.
-use crate::util::format::{format_date_part, format_time_part};
+use crate::util::constants::{MONTH_ABBREVIATED, MONTH_NARROW, MONTH_WIDE, WDAY_ABBREVIATED, WDAY_NARROW, WDAY_SHORT, WDAY_WIDE};
+use crate::util::format::{format_date_part, format_part, format_time_part};
 use std::sync::atomic::{AtomicU64, AtomicUsize, Ordering::Relaxed};
 
 static LOGN: AtomicUsize = AtomicUsize::new(0);
@@ -163,6 +164,64 @@ macro_rules! zone_row {
                     _ => assert!(rec(1) == enc(m, 2) && if s != 0 { n == 3 && rec(2) == enc(s, 2) } else { n == 2 }),
                 }
             }
+        }
+    };
+}
+
+// name rows: the returned text is one entry of an English table (or a fixed word); string equality on short constants
+macro_rules! name_row {
+    ($name:ident, $pat:expr, |$d:ident, $n:ident, $r:ident| $check:expr) => {
+        #[kani::proof]
+        #[kani::unwind(16)]
+        #[kani::stub(crate::util::format::zero_padded, zp_stub)]
+        #[kani::stub(crate::util::format::zero_padded_i, zpi_stub)]
+        #[kani::stub(alloc::fmt::format, fmt_stub)]
+        #[kani::stub(crate::util::date::convert::days_to_date, d2d_stub)]
+        #[kani::stub(crate::util::date::convert::days_to_doy, doy_stub)]
+        #[kani::stub(crate::util::date::convert::days_to_wday, wday_stub)]
+        #[kani::stub(crate::util::date::convert::days_to_wyear, wyear_stub)]
+        fn $name() {
+            let $d: i32 = kani::any();
+            let secs: u32 = kani::any();
+            kani::assume(secs < 86_400);
+            let sub: u32 = kani::any();
+            kani::assume(sub < 1_000_000_000);
+            let $n: u64 = secs as u64 * 1_000_000_000 + sub as u64;
+            let off: i32 = kani::any();
+            kani::assume(off > -86_400 && off < 86_400);
+            // through the dispatcher used by DateTime::format
+            let $r = format_part($pat, $d, $n, off);
+            assert!($check);
+        }
+    };
+}
+fn period(n: u64, table: [&'static str; 4], separate_12: bool) -> &'static str {
+    let t = n / 1_000_000_000;
+    if separate_12 && t == 0 { table[3] } else if separate_12 && t == 43_200 { table[2] } else if t < 43_200 { table[0] } else { table[1] }
+}
+// dispatch rows: DateTime::format goes through format_part; the same row assertions must hold through it
+macro_rules! dispatch_row {
+    ($name:ident, $pat:expr, |$h:ident, $m:ident, $s:ident| $check:expr) => {
+        #[kani::proof]
+        #[kani::unwind(4)]
+        #[kani::stub(crate::util::format::zero_padded, zp_stub)]
+        #[kani::stub(crate::util::format::zero_padded_i, zpi_stub)]
+        #[kani::stub(alloc::fmt::format, fmt_stub)]
+        #[kani::stub(crate::util::date::convert::days_to_date, d2d_stub)]
+        #[kani::stub(crate::util::date::convert::days_to_doy, doy_stub)]
+        #[kani::stub(crate::util::date::convert::days_to_wday, wday_stub)]
+        #[kani::stub(crate::util::date::convert::days_to_wyear, wyear_stub)]
+        fn $name() {
+            let $h: u32 = kani::any();
+            let $m: u32 = kani::any();
+            let $s: u32 = kani::any();
+            kani::assume($h < 24 && $m < 60 && $s < 60);
+            let n: u64 = (($h as u64 * 60 + $m as u64) * 60 + $s as u64) * 1_000_000_000;
+            let d: i32 = kani::any();
+            let off: i32 = kani::any();
+            kani::assume(off > -86_400 && off < 86_400);
+            let _ = format_part($pat, d, n, off);
+            assert!($check);
         }
     };
 }
